@@ -69,7 +69,7 @@ def known_state():
 
 
 def specs():
-    return [dict(name="c10_netcache", srcs="c10_netcache.cpp", cfg="asan", rapidcheck=True, wraps=["time", "readv", "writev"])]
+    return [dict(name="c10_netcache", srcs="c10_netcache.cpp", cfg="asan", rapidcheck=True, wraps=["time", "readv", "writev", "connect"])]
 
 
 def budget(tier):
